@@ -1,14 +1,126 @@
 /-
-  ICG.Driver.Store — line protocol of domain `store` (stub: to be filled in by the domain's owner).
+  ICG.Driver.Store — line protocol of domain `store` (C19 store of saved results, C20 crash model).
+
+  C19 (several stores, addressed by an id):
+    store reset  <sid>                  → ok
+    store save   <sid> <name> <entry>   → added | kept          (`save`)
+    store lookup <sid> <name>           → <entry> | none        (`lookup`)
+    store names  <sid>                  → n1,n2,… | -           (`names`)
+    store dump   <sid>                  → n1=<entry> n2=<entry> … | -
+  <entry> = <arr>;<arr>;<meta>     data ; actions ; metadata
+  <arr>   = <shape>:<cells>        shape `2x3` (`-` for a 0-dimensional array), cells `t1,t2,…` or `-`
+  <meta>  = k1=v1,k2=v2,… | -      names, keys and values are opaque tokens (the harness sends `h<hex>`)
+
+  C20:
+    store crash <target> <init> <op>*   → atomic=<0|1> <class_0> … <class_N>     (N = number of ops)
+  <init>  = - | p1=<hex>,p2=<hex>,…   files that exist before the save (content in hex, may be empty)
+  <op>    = or:p | ot:p | ox:p | ok:p | w:p:<hex> | c:p | fs:p | mv:src:dst | rm:p | x:p
+  <class_k> = content of <target> after the first k operations (`crashAfter k`):
+            old (= content before the save, also when both are absent) | new (= content after all
+            operations) | absent | lit:<hex>
+  Contents stay hex strings inside the model: concatenation of hex strings is concatenation of bytes.
 -/
+import ICG.Model.Store
 import ICG.Driver.Proto
 namespace ICG.Driver.Store
-open ICG ICG.Proto
+open ICG ICG.Proto ICG.Store
 
-abbrev State := Unit
-def init : State := ()
+abbrev State := List (String × Store Entry)
+def init : State := []
+
+def get? (s : State) (sid : String) : Option (Store Entry) := (s.find? (·.1 == sid)).map (·.2)
+def put (s : State) (sid : String) (t : Store Entry) : State := (sid, t) :: s.filter (·.1 != sid)
+
+def parseArr? (s : String) : Option Arr :=
+  match s.splitOn ":" with
+  | [sh, cells] => do
+    let shape ← if sh = "-" then some [] else (sh.splitOn "x").mapM String.toNat?
+    let cs := if cells = "-" then [] else cells.splitOn ","
+    some ⟨shape, cs⟩
+  | _ => none
+
+def parseMeta? (s : String) : Option (List (String × String)) :=
+  if s = "-" then some [] else
+    (s.splitOn ",").mapM (fun kv => match kv.splitOn "=" with
+      | [k, v] => some (k, v)
+      | _ => none)
+
+def parseEntry? (s : String) : Option Entry :=
+  match s.splitOn ";" with
+  | [d, a, m] => do
+    let d ← parseArr? d
+    let a ← parseArr? a
+    let m ← parseMeta? m
+    some ⟨d, a, m⟩
+  | _ => none
+
+def showArr (a : Arr) : String :=
+  (if a.shape.isEmpty then "-" else "x".intercalate (a.shape.map toString)) ++ ":" ++
+  (if a.cells.isEmpty then "-" else ",".intercalate a.cells)
+
+def showMeta (m : List (String × String)) : String :=
+  if m.isEmpty then "-" else ",".intercalate (m.map (fun kv => kv.1 ++ "=" ++ kv.2))
+
+def showEntry (e : Entry) : String := showArr e.data ++ ";" ++ showArr e.actions ++ ";" ++ showMeta e.metadata
+
+def parseOp? (s : String) : Option FsOp :=
+  match s.splitOn ":" with
+  | ["or", p] => some (.openRead p)
+  | ["ot", p] => some (.openTrunc p)
+  | ["ox", p] => some (.openExcl p)
+  | ["ok", p] => some (.openKeep p)
+  | ["w", p, c] => some (.write p c)
+  | ["c", p] => some (.close p)
+  | ["fs", p] => some (.fsync p)
+  | ["mv", a, b] => some (.rename a b)
+  | ["rm", p] => some (.unlink p)
+  | ["x", p] => some (.other p)
+  | _ => none
+
+def parseInit? (s : String) : Option Fs :=
+  if s = "-" then some (fun _ => none) else do
+    let kvs ← (s.splitOn ",").mapM (fun kv => match kv.splitOn "=" with
+      | [k, v] => some (k, v)
+      | _ => none)
+    some (fun q => (kvs.find? (·.1 == q)).map (·.2))
+
+def classOf (old new cur : Option String) : String :=
+  if cur = old then "old"
+  else if cur = new then "new"
+  else match cur with
+    | none => "absent"
+    | some c => "lit:" ++ c
+
+def crashLine (target : String) (fs : Fs) (ops : List FsOp) : String :=
+  let old := fs target
+  let new := run ops fs target
+  let classes := (List.range (ops.length + 1)).map (fun k => classOf old new (crashAfter k ops fs target))
+  s!"atomic={if atomicB target ops then 1 else 0} " ++ " ".intercalate classes
 
 def handle (s : State) : List String → State × String
+  | ["reset", sid] => (put s sid [], "ok")
+  | ["save", sid, name, entry] =>
+    match get? s sid, parseEntry? entry with
+    | some t, some e => (put s sid (save t name e), if has t name then "kept" else "added")
+    | _, _ => (s, "bad-op")
+  | ["lookup", sid, name] =>
+    match get? s sid with
+    | some t => (s, match lookup t name with
+      | some e => showEntry e
+      | none => "none")
+    | none => (s, "bad-op")
+  | ["names", sid] =>
+    match get? s sid with
+    | some t => (s, showList id (names t))
+    | none => (s, "bad-op")
+  | ["dump", sid] =>
+    match get? s sid with
+    | some t => (s, if t.isEmpty then "-" else " ".intercalate (t.map (fun p => p.1 ++ "=" ++ showEntry p.2)))
+    | none => (s, "bad-op")
+  | "crash" :: target :: initS :: opsS =>
+    match parseInit? initS, opsS.mapM parseOp? with
+    | some fs, some ops => (s, crashLine target fs ops)
+    | _, _ => (s, "bad-op")
   | _ => (s, "bad-op")
 
 end ICG.Driver.Store
